@@ -88,6 +88,7 @@ impl TapeSpec {
     }
 }
 
+#[derive(Clone)]
 pub struct TapeRng {
     a: ChaCha20Rng,
     b: Option<(usize, ChaCha20Rng)>,
